@@ -191,7 +191,7 @@ let parse_value (t : string) : value =
   match k with
   | "s" -> VStr (unhex x) | "n" -> VNum (n_of_int (int_of_string x))
   | "b" -> VBool (x = "1") | "c" -> VChr (n_of_int (int_of_string x))
-  | "i" -> let v = int_of_string x in VInt (v < 0, n_of_int (abs v))
+  | "i" -> if String.length x > 0 && x.[0] = '-' then VInt (true, n_of_dec (String.sub x 1 (String.length x - 1))) else VInt (false, n_of_dec x)
   | _ -> failwith "value"
 
 let parse_set_tokens (toks : string list) : cset =
@@ -252,7 +252,7 @@ let decl_sets : cset array Lazy.t = lazy (
 let value_str = function
   | VStr s -> "s:" ^ hex s | VNum n -> "n:" ^ string_of_int (int_of_n n)
   | VBool b -> "b:" ^ (if b then "1" else "0") | VChr c -> "c:" ^ string_of_int (int_of_n c)
-  | VInt (neg, n) -> "i:" ^ (if neg then "-" else "") ^ string_of_int (int_of_n n)
+  | VInt (neg, n) -> "i:" ^ (if neg then "-" else "") ^ dec_of_n n
 let rec canon (t : tval) : string =
   match t with
   | TV (name, fields, sub) ->
